@@ -1,6 +1,8 @@
 import Darling.Val
 import Darling.FromMeta.Scalars
 import Darling.FromMeta.Wrappers
+import Darling.FromMeta.SynTypes
+import Darling.FromMeta.Maps
 /-
   The closed universe of target types on which the model is executed, and `hooksOf`.
   External parsers (std float parsing, syn grammar parsers on string contents) arrive as an
@@ -12,6 +14,8 @@ structure Oracle where
   floats : List (Nat × String × Option Nat) := []
   /-- syn grammar parsers on a string: kind, input ↦ printed tokens -/
   syns : List (String × String × Option String) := []
+  /-- `LitStr::parse::<ExprArray>()`: input ↦ the array expression -/
+  arrs : List (String × Option Expr) := []
 
 namespace Oracle
 def parseFloat (o : Oracle) (w : Nat) (s : String) : Option Nat :=
@@ -21,6 +25,10 @@ def parseFloat (o : Oracle) (w : Nat) (s : String) : Option Nat :=
 def parseSyn (o : Oracle) (kind s : String) : Option String :=
   match o.syns.find? (fun r => r.1 == kind && r.2.1 == s) with
   | some r => r.2.2
+  | none => none
+def parseArr (o : Oracle) (s : String) : Option Expr :=
+  match o.arrs.find? (fun r => r.1 == s) with
+  | some r => r.2
   | none => none
 end Oracle
 
@@ -32,6 +40,14 @@ inductive Ty where
   | option (t : Ty) | ptr (t : Ty) | result (t : Ty) | resultMeta (t : Ty)
   | override (t : Ty) | spanned (t : Ty) | withOrig (t : Ty)
   | probe (mask : Nat) (failing : Bool)
+  | synExpr | synPath | synIdent | identString
+  | synExprTy (v : SynTypes.ExprVariant)
+  | synParse (kind : String)
+  | wherePreds | renameRule | punctuated (kind : String)
+  | lit | litKind (k : SynTypes.LitKind) | vecLit (k : SynTypes.LitKind)
+  | numArray (spec : IntSpec)
+  | synMeta | ignored | pathList | callable
+  | map (key : Maps.KeyKind) (ordered : Bool) (t : Ty)
   deriving Repr, Inhabited
 
 namespace Probe
@@ -54,6 +70,10 @@ def hooks (mask : Nat) (failing : Bool) : Hooks Val :=
     fromExpr?   := if bit mask 6 then some (fun e => ret failing ("expr:" ++ e.kindName)) else none }
 end Probe
 
+/-- `impl FromStr for ident_case::RenameRule` (external crate) -/
+def renameRuleNames : List String :=
+  ["lowercase", "PascalCase", "camelCase", "snake_case", "SCREAMING_SNAKE_CASE", "kebab-case"]
+
 def hooksOf (o : Oracle) : Ty → Hooks Val
   | .unit => Scalars.unitHooks .unit
   | .bool => Scalars.boolHooks .bool
@@ -72,3 +92,22 @@ def hooksOf (o : Oracle) : Ty → Hooks Val
   | .spanned t => Wrappers.spannedOf .spanned (hooksOf o t)
   | .withOrig t => Wrappers.withOriginalOf (fun v m => .withOrig v m.toks) (hooksOf o t)
   | .probe mask failing => Probe.hooks mask failing
+  | .synExpr => SynTypes.exprHooks (o.parseSyn "Expr") .toks
+  | .synPath => SynTypes.pathHooks (o.parseSyn "Path") .toks
+  | .synIdent => SynTypes.identHooks (o.parseSyn "Ident") .toks
+  | .identString => SynTypes.identStringHooks (o.parseSyn "Ident") .toks
+  | .synExprTy v => SynTypes.synExprHooks v (o.parseSyn (match v with
+      | .array => "ExprArray" | .path => "ExprPath" | .range => "ExprRange")) .toks
+  | .synParse kind => SynTypes.synParseHooks (o.parseSyn kind) .toks
+  | .wherePreds => SynTypes.wherePredsHooks (o.parseSyn "WherePreds") .toks
+  | .renameRule => SynTypes.renameRuleHooks renameRuleNames .str
+  | .punctuated kind => SynTypes.punctuatedHooks (o.parseSyn kind) .toks
+  | .lit => SynTypes.litHooks .toks
+  | .litKind k => SynTypes.litKindHooks k .toks
+  | .vecLit k => SynTypes.vecLitHooks k o.parseArr .toks .list
+  | .numArray sp => SynTypes.numArrayHooks sp o.parseArr .int .list
+  | .synMeta => SynTypes.metaHooks .toks
+  | .ignored => SynTypes.ignoredHooks .unit
+  | .pathList => SynTypes.pathListHooks .toks .list
+  | .callable => SynTypes.callableHooks .toks
+  | .map key _ t => Maps.mapHooks key .map (hooksOf o t)
